@@ -66,7 +66,7 @@ Proof. exact negative_index_values. Qed.
 (** with non-negative indices Python indexing is the specification's indexing *)
 Theorem C04_nonneg_index_is_clojure_index : forall l i x, (0 <= i)%Z ->
   py_nth l i = clj_nth l i /\ py_set l i x = clj_set l i x.
-Proof. intros l i x H. exact (conj (py_nth_nonneg l i H) (py_set_nonneg l i x H)). Qed.
+Proof. exact nonneg_index_is_clojure_index. Qed.
 
 (** *** no operation changes a value obtained earlier *)
 Theorem C04_old_values_stable : forall (L : Libs) (ops1 ops2 : list op) (i : nat) (r : ires L),
@@ -87,12 +87,7 @@ Theorem C04_meta_irrelevant_eq_hash : forall (L : Libs) (c d : icoll L) (m1 m2 n
   coll_eq L d (coll_with_meta L c) = coll_eq L d c /\
   coll_eq L c (coll_with_meta L c) = true /\
   coll_hash L (coll_with_meta L c) = coll_hash L c.
-Proof.
-  intros L c d m1 m2 n1 n2.
-  destruct (with_meta_copy_equal_and_same_hash L c d) as (A & B & C & D).
-  rewrite (coll_eq_refl L c) in C.
-  exact (conj (meta_not_inspected L c d m1 m2 n1 n2) (conj A (conj B (conj C D)))).
-Qed.
+Proof. exact meta_irrelevant_eq_hash. Qed.
 
 (** (with-meta c m): an equal value with the same contents carrying exactly m, nothing else
     touched; guard: not (m = nil and c has metadata) *)
@@ -133,24 +128,16 @@ Theorem C04_spec_maps_modulo_permutation : forall k v (l1 l2 : al),
   Permutation l1 l2 -> nodupk l1 = true ->
   al_get k l1 = al_get k l2 /\ Permutation (al_set k v l1) (al_set k v l2) /\
   Permutation (al_del k l1) (al_del k l2) /\ nodupk (al_set k v l1) = true /\ nodupk (al_del k l1) = true.
-Proof.
-  intros k v l1 l2 P N.
-  exact (conj (perm_al_get k l1 l2 P N) (conj (perm_al_set k v l1 l2 P N)
-        (conj (perm_al_del k l1 l2 P N) (conj (nodupk_al_set k v l1 N) (nodupk_al_del k l1 N))))).
-Qed.
+Proof. exact spec_maps_modulo_permutation. Qed.
 Theorem C04_spec_sets_modulo_permutation : forall x (l1 l2 : list elem),
   Permutation l1 l2 -> nodup l1 = true ->
   mem x l1 = mem x l2 /\ Permutation (s_add x l1) (s_add x l2) /\ Permutation (s_del x l1) (s_del x l2) /\
   nodup (s_add x l1) = true /\ nodup (s_del x l1) = true.
-Proof.
-  intros x l1 l2 P N.
-  exact (conj (perm_mem x l1 l2 P) (conj (perm_s_add x l1 l2 P) (conj (perm_s_del x l1 l2 P N)
-        (conj (nodup_s_add x l1 N) (nodup_s_del x l1 N))))).
-Qed.
+Proof. exact spec_sets_modulo_permutation. Qed.
 Theorem C04_key_equality_is_an_equivalence :
   (forall a, keq a a = true) /\ (forall a b, keq a b = keq b a) /\
   (forall a b c, keq a b = true -> keq b c = true -> keq a c = true).
-Proof. exact (conj keq_refl (conj keq_sym keq_trans)). Qed.
+Proof. exact key_equality_is_an_equivalence. Qed.
 
 (** *** non-vacuity *)
 Example C04_guards_nonvacuous :
